@@ -378,7 +378,7 @@ pub fn close_position_reply(
         latest_premium_fraction: _,
     } = calc_remain_margin_with_funding_payment(deps.as_ref(), position.clone(), margin_delta)?;
 
-    let mut withdraw_amount = Integer::new_positive(margin).checked_add(swap.unrealized_pnl)?;
+    let withdraw_amount = Integer::new_positive(margin).checked_add(swap.unrealized_pnl)?;
 
     let mut msgs: Vec<SubMsg> = vec![];
 
@@ -390,6 +390,7 @@ pub fn close_position_reply(
     // create array for fee amounts
     let mut fees_amount: [Uint128; 2] = [Uint128::zero(), Uint128::zero()];
     let mut fee_msgs: Vec<SubMsg> = vec![];
+    let mut native_fees = Uint128::zero();
 
     if !position.notional.is_zero() {
         let mut fees = transfer_fees(
@@ -408,27 +409,34 @@ pub fn close_position_reply(
         // native tokens cannot be pulled from the trader's wallet, the fees are sent from the
         // vault and are therefore taken out of the amount paid to the trader
         if let AssetInfo::NativeToken { .. } = config.eligible_collateral {
-            withdraw_amount = Integer::new_positive(
-                withdraw_amount
-                    .value
-                    .checked_sub(fees.spread_fee.checked_add(fees.toll_fee)?)?,
-            );
+            native_fees = fees.spread_fee.checked_add(fees.toll_fee)?;
         }
     }
 
+    let net_amount = withdraw_amount.value.checked_sub(native_fees)?;
+
     if !withdraw_amount.is_zero() {
-        msgs.append(
-            &mut withdraw(
-                deps.as_ref(),
-                env,
-                &mut state,
-                &swap.trader,
-                config.eligible_collateral,
-                withdraw_amount.value,
-                Uint128::zero(),
-            )
-            .unwrap(),
-        );
+        // the vault pays out the net amount and the native fees: any shortfall is drawn from
+        // the insurance fund for both together
+        let mut payout = withdraw(
+            deps.as_ref(),
+            env,
+            &mut state,
+            &swap.trader,
+            config.eligible_collateral,
+            withdraw_amount.value,
+            Uint128::zero(),
+        )
+        .unwrap();
+
+        if !native_fees.is_zero() {
+            payout.pop();
+            if !net_amount.is_zero() {
+                payout.push(execute_transfer(deps.storage, &swap.trader, net_amount)?);
+            }
+        }
+
+        msgs.append(&mut payout);
     }
 
     msgs.append(&mut fee_msgs);
